@@ -550,7 +550,9 @@ def rule_partial(rep: Report, rid="C01.partial") -> None:
                                 break
                         except Exception:
                             pass
-                if not ok and base[0] == "call" and base[1] in ("re.split", ".split", ".rsplit", ".partition", ".splitlines") and t[2][1] == 0 and base[1] != ".splitlines":
+                if not ok and base[0] == "call" and base[1] in ("re.split", ".split", ".rsplit", ".partition", ".splitlines") and t[2][1] == 0 and base[1] != ".splitlines" \
+                        and not (base[1] in (".split", ".rsplit") and (len(base[2]) < 2 or is_const(base[2][1], None))):
+                    # (with a separator; ``s.split()`` on blanks returns [] for an empty or all-blank string)
                     ok, why = True, "split never returns an empty list"
                 if not ok and base[0] in ("tuple", "elem", "param?") or (base[0] == "item" and base[1][0] == "elem"):
                     ok, why = True, "tuple unpacking of an iteration element"
